@@ -735,6 +735,7 @@ impl<'a> BumpBox<'a, str> {
         }
 
         if start == end {
+            self.assert_char_boundary(start);
             return BumpBox::EMPTY_STR;
         }
 
